@@ -754,6 +754,13 @@ class TrigTime:
                     return False
 
                 start, _ = await cls.parse_date_time(dt_start.strip(), 0, now, startup_time)
+                start_word = re.match(r"(\w+)", dt_start.strip().lower())
+                if start > now and start_word and start_word[1] in cls.dow2int:
+                    # a day of the week is parsed as the next such day; a range that started on
+                    # the previous one may still be running
+                    start, _ = await cls.parse_date_time(
+                        dt_start.strip(), 0, now - dt.timedelta(days=7), startup_time
+                    )
                 end, _ = await cls.parse_date_time(dt_end.strip(), 0, start, startup_time)
 
                 if start <= end:
